@@ -190,7 +190,7 @@ PROPS = {
     "C11": {
         "extra_files": ["proofs/InlineConsts.v"],
         "prop_files": ["props/C11.v"],
-        "consts": ["wrath_large_threshold", "wrath_marker_set", "wrath_marker_clear", "wrath_marker_test", "vanilla_client_header_length", "vanilla_server_header_length", "wrath_server_header_min_length", "wrath_server_header_max_length", "session_key_length", "proof_length", "tbc_seed_enc", "tbc_seed_dec", "wrath_S", "wrath_R"],
+        "consts": ["tbc_client_header_length", "tbc_server_header_length", "wrath_large_threshold", "wrath_marker_set", "wrath_marker_clear", "wrath_marker_test", "vanilla_client_header_length", "vanilla_server_header_length", "wrath_server_header_min_length", "wrath_server_header_max_length", "session_key_length", "proof_length", "tbc_seed_enc", "tbc_seed_dec", "wrath_S", "wrath_R"],
         "runner": "run_C11",
         "byte_exact": True,
         "rule": "all 12 (module, header kind, half/combined) selectors: typed encrypt/decrypt helpers over sizes {0,1,0xFF,0x100,0x7FFF,0x8000,0xFFFF} (Wrath server also 0x10000..0x7FFFFF and beyond) x opcodes {0,1,0xFF,0x100,0x1EE,0xFFFF} (+ u32 values) from random cipher states; read_and_decrypt_X through scripted readers: a failure injected at EVERY byte offset of every header kind (incl. the fifth byte of a long Wrath header, then resumed with decrypt_large_server_header) for every error kind + end of file + zero-length read, three fragmentations of the delivered prefix, plus random fragmentations with interruptions and surplus bytes; write_encrypted_X through scripted writers failing at every offset with every kind / WriteZero, and succeeding writers of every granularity. Every case goes through the implementation and the Coq model (result, bytes handed over, unread bytes, cipher state observed as (index, previous[, key]) or by an 8-byte probe for Wrath); implementation-only oracles: helper = raw call on the wire layout, state unchanged after a failed read, error kind returned unchanged, nothing consumed beyond the header, writer received a prefix / exactly the header. Added in the second session: boundary sizes (0, 0x7FFE, 0x7FFF, 0x8000, 0x8001, 0xFFFF, 0x10000, 0x7FFFFF) on the write wrappers with succeeding writers.",
@@ -219,7 +219,7 @@ for _k in ("C03", "C04"):
     PROPS[_k]["consts"] = list(PROPS[_k]["consts"]) + [c for c in ("large_safe_prime_length", "n_be", "sha1_hash_length", "proof_length", "private_key_length", "salt_length", "s_length", "session_key_length", "reconnect_challenge_data_length", "public_key_length", "n_le") if c not in PROPS[_k]["consts"]]
 STEP_FILES = {"C07": ["Vanilla"], "C08": ["Tbc"], "C09": ["Rc4"], "C11": ["Vanilla", "Tbc", "Wrath"], "C10": ["Wrath"], "C18": ["Rc4", "Matrix"], "C16": ["Pin"], "C03": ["Key"], "C14": ["Key"]}
 for _k, _fs in {"C01": ["ApiIntoServer", "Formulas"], "C03": ["Formulas"], "C02": ["ApiIntoServer", "ApiClientProof"], "C05": ["ApiServerReconnect", "ApiClientReconnect"],
-                "C15": ["ApiServerReconnect", "ApiIntoServer", "ApiClientReconnect"], "C06": ["ApiWorld"], "C04": ["KeyCheck"], "C13": ["NormString"], "C19": ["Formulas"], "C11": ["HelpersVanilla", "HelpersTbc"], "C07": ["HelpersVanilla"], "C08": ["HelpersTbc"], "C14": ["HelpersVanilla", "HelpersTbc"]}.items():
+                "C15": ["ApiServerReconnect", "ApiIntoServer", "ApiClientReconnect"], "C06": ["ApiWorld"], "C04": ["KeyCheck"], "C13": ["NormString"], "C19": ["Formulas"], "C11": ["HelpersVanilla", "HelpersTbc", "IoWrappers"], "C07": ["HelpersVanilla"], "C08": ["HelpersTbc"], "C14": ["HelpersVanilla", "HelpersTbc"]}.items():
     STEP_FILES[_k] = STEP_FILES.get(_k, []) + _fs
 for _k, _fs in STEP_FILES.items():
     PROPS[_k]["extra_files"] = PROPS[_k]["extra_files"] + ["proofs/steps/%s.v" % f for f in _fs]
